@@ -59,6 +59,12 @@ def cases(tier):
         conts['struct-struct'] = {'k': 'struct', 'of': {'a': {'k': 'struct', 'of': {'x': D}}, 'b': {'k': 'tuple', 'of': [B, D]}}}
     for n, s in conts.items():
         out.append(case(n, s))
+    # partial structs (optional members omitted) on the client side, nested
+    so = {'k': 'struct', 'of': {'x': D, 'n': I, 'e': ENUM}, 'optional': ['n', 'e']}
+    nested = {'struct-opt': so, 'array-struct-opt': {'k': 'array', 'of': so}, 'tuple-struct-opt': {'k': 'tuple', 'of': [so, B]},
+              'struct-struct-opt': {'k': 'struct', 'of': {'inner': so, 'f': D}}}
+    for n, s in nested.items():
+        out.append({'fn': 'run_partial_client', 'id': f'partial-client/{n}', 'params': {'shape': s}})
     return out
 
 
@@ -153,3 +159,40 @@ def concrete_part(env, dt, d2, v, e, K):
         if not has_float(v):
             env.check(M.eq(d.validate(v2), d.validate(v)), f'{K}/text-form-value-differs/{which}', [s1, repr(v2)])
     env.note('concrete-text')
+
+
+def strip_optional(spec, v):
+    """the same value without the optional struct members"""
+    if spec.kind == 'struct':
+        return {k: strip_optional(spec.subs[k], x) for k, x in v.items() if k not in spec.optional or set(spec.optional) == set(spec.subs)}
+    if spec.kind == 'array':
+        return tuple(strip_optional(spec.sub, x) for x in v)
+    if spec.kind == 'tuple':
+        return tuple(strip_optional(sp, x) for sp, x in zip(spec.subs, v))
+    return v
+
+
+def run_partial_client(env, p):
+    """a client may omit optional struct members at any nesting depth: the rebuilt datatype exports and
+    re-imports such a partial value unchanged"""
+    from frappy.datatypes import get_datatype
+    spec = M.build(env, p['shape'], 'd')
+    full = M.valid_value(env, spec, 'v')
+    partial = strip_optional(spec, full)
+    K = 'C02/partial-client/' + spec.kind
+    d2 = get_datatype(spec.dt.export_datatype(), 'p')
+    try:
+        e = d2.export_value(partial)
+        r = d2.validate(d2.import_value(e))
+        e2 = d2.export_value(r)
+    except Exception as ex:
+        env.fail(K + '/client-refuses-partial-struct/' + type(ex).__name__, repr(ex)[:120])
+        return
+    env.check(M.eq(r, partial), K + '/partial-roundtrip-differs')
+    env.check(M.eq(e2, e), K + '/partial-export-differs')
+    env.check(json_kind_ok_partial(spec, e), K + '/wrong-json-kind')
+    env.note('roundtrip')
+
+
+def json_kind_ok_partial(spec, e):
+    return json_kind_ok(spec, e)
